@@ -5,6 +5,7 @@ merged at loop heads, where loop invariants are found Houdini-style from a
 template (difference bounds, sums, congruences).  Every raw read, aligned
 access, pointer distance, panic site and rule-specific post-condition becomes
 an obligation that must be entailed by the linear store."""
+import re
 import sys, time
 from .lin import LinExpr, Store, fresh, ZERO, ONE
 from .absval import *
@@ -14,6 +15,8 @@ V = LinExpr.var
 C = LinExpr.const
 
 MAX_DEPTH = 60
+CALL_JOIN = 4
+JOIN_AFTER = re.compile(r'^memmem::searcher::(Pre::<.*>::|PrefilterState::)')
 STATES_CAP = 512          # join when more states than this wait at one block
 
 
@@ -933,7 +936,11 @@ class Interp:
         pending = {}
         returns, exits, back = [], [], []
 
+        trail = self.opts.get('trace_loops') == '2'
+
         def route(nb, ns):
+            if trail and len(self.stack) <= 6:
+                ns.ghost['trail'] = (ns.ghost.get('trail', ()) + ((len(self.stack), nb),))[-40:]
             if nb == 'return':
                 returns.append(ns)
             elif head is not None and nb == head:
@@ -1047,6 +1054,7 @@ class Interp:
             self.ob(kind, fr, loc, role, True, 'unreachable: branch condition refuted', macros)
         else:
             sat = st.store.check_sat()
+            self.cur_state = st
             self.ob(kind, fr, loc, role, not sat, 'panic site reachable' if sat else 'unreachable (state unsatisfiable)', macros)
 
     def exec_term(self, fr, b, st, t):
@@ -1164,7 +1172,11 @@ class Interp:
             s_in = st.copy() if multi else st
             a_in = args
             results.extend(self.call_target(fr, s_in, t, key, a_in))
-        return self.finish_call(fr, t, results)
+        outs = self.finish_call(fr, t, results)
+        if len(outs) > CALL_JOIN and len(targets) == 1 and JOIN_AFTER.search(targets[0]):
+            # bookkeeping helpers whose many outcomes differ only in saturating counters: join per shape
+            outs = [(t['t'], s2) for s2 in self.merge_by_shape(fr, t['t'], [s2 for _, s2 in outs])]
+        return outs
 
     def call_target(self, fr, st, t, key, args):
         callee = self.P.instances.get(key)
@@ -1195,10 +1207,10 @@ class Interp:
                 ty = self.P.types[callee.locals[i + 1]]
                 if ty['kind'] == 'ref' and ty['mut']:
                     self.store_lv(fr, st, a.lv, self.fresh_of_type(st, ty['to'], 'cut'), ty['to'])
-        ret = self.fresh_of_type(st, callee.locals[0], 'cut')
         outs = []
-        for s2, r2 in mm.assume_call_post(self, fr, st, callee, args, ret):
-            outs += self.models.apply_summary(self, fr, s2, t, key, callee, args, r2)
+        for s1, ret in mm.fresh_results(self, st, callee):
+            for s2, r2 in mm.assume_call_post(self, fr, s1, callee, args, ret):
+                outs += self.models.apply_summary(self, fr, s2, t, key, callee, args, r2)
         return outs
 
     def adapt_args(self, callee, args, st):
